@@ -188,7 +188,13 @@ def run_property(modname: str, tier: str, seed: int, update_ledger: bool = False
     need = refuted or undecided
     conc_results: list[dict[str, Any]] = []
     if need and conc is not None:
-        conc_results = conc(tier, seed, refuted, undecided, known) or []
+        from replay.limits import DidNotTerminate as _DNT, time_limit as _tl
+
+        try:
+            with _tl(int(os.environ.get("PYVC_STANDIN_DEADLINE_S", "1500" if tier == "quick" else "10800"))):
+                conc_results = conc(tier, seed, refuted, undecided, known) or []
+        except _DNT:
+            faults.append(f"{prop}: the search for a concrete failing input did not finish (does the code under check still terminate?)")
     # PYVC_OUT: where replays and evidence go (seed/mutant harnesses point it at a scratch directory so that a run
     # against a deliberately broken tree never overwrites the evidence of the real tree)
     out_root = Path(os.environ.get("PYVC_OUT") or (ROOT / ".work" / "only" if only else ROOT))  # a partial (--only) run never overwrites the evidence
@@ -235,7 +241,16 @@ def run_property(modname: str, tier: str, seed: int, update_ledger: bool = False
     standins = []
     extra = getattr(mod, "extra_checks", None)
     if extra is not None and not (only and os.environ.get("PYVC_SKIP_EXTRA")):  # development aid, only with --only
-        for e in extra(tier, seed):
+        from replay.limits import DidNotTerminate, time_limit
+
+        deadline = int(os.environ.get("PYVC_STANDIN_DEADLINE_S", "1500" if tier == "quick" else "10800"))
+        try:
+            with time_limit(deadline):
+                extra_results = list(extra(tier, seed))
+        except DidNotTerminate:
+            extra_results = [{"name": f"{prop}-standins", "kind": "bounded stand-ins", "evaluations": 0, "violation": False,
+                              "fault": f"the bounded stand-ins did not finish within {deadline} s (does the code under check still terminate?)"}]
+        for e in extra_results:
             standins.append(e)
             if e.get("violation") and not e.get("known"):
                 rdir.mkdir(parents=True, exist_ok=True)
